@@ -154,8 +154,9 @@ class AstToSqlVisitor(visitor.NodeVisitor):
             intervals.append(f"INTERVAL '{seconds}' SECOND")
 
         if len(intervals) == 0:
-            # Shouldn't occur but whatever
-            return ""
+            # `duration'P'` / `duration'PT'`: there is nothing to render, and an
+            # empty string would silently drop the operand from the SQL text.
+            raise exceptions.ValueException(node.val)
         if len(intervals) == 1:
             return f"{sign}{intervals[0]}"
         if len(intervals) > 1:
